@@ -43,17 +43,21 @@ def main():
         except SyntaxError:
             continue
         rec = {}
+        mhash = {}
 
         def visit(body, prefix):
             for st in body:
                 if isinstance(st, ast.ClassDef):
                     visit(st.body, prefix + st.name + ".")
                 elif isinstance(st, (ast.FunctionDef, ast.AsyncFunctionDef)):
+                    if st.name.startswith("_") and not st.name.startswith("__"):
+                        mhash[prefix + st.name] = alpha.method_hash(st)
                     # functions without locals are recorded too (empty name lists): a local that appears later is known to be new
                     rec[prefix + st.name] = alpha.shape_record(st) if alpha.local_names(st) else []
         visit(tree.body, "")
         # names bound at module level: a module constant that appears later is known to be new
         rec["<module>"] = [[0, sorted(alpha.module_level_names(tree))]]
+        rec["<methods>"] = [[0, mhash]]
         if rec:
             refs[rel] = rec
             n += len(rec)
